@@ -7,7 +7,7 @@ cd $W
 PYTHONPATH=$W/src /venv/bin/python $D/demo.py > $D/demo_pristine.log 2>&1; rc0=$?
 git apply $D/patch.diff || { echo "patch does not apply"; git -C /repo worktree remove --force $W; exit 2; }
 PYTHONPATH=$W/src /venv/bin/python $D/demo.py > $D/demo_mutated.log 2>&1; rc1=$?
-out=$(PYTHONPATH=$W/src /venv/bin/python -m pytest -q -ra -p no:cacheprovider --timeout=900 2>&1)
+out=$(HYPOTHESIS_STORAGE_DIRECTORY=/tmp/hyp.$$ PYTHONPATH=$W/src /venv/bin/python -m pytest -q -ra -p no:cacheprovider --timeout=900 2>&1)
 t=$(echo "$out" | grep -E "passed|failed" | tail -1)
 bad=$(echo "$out" | grep -E "^(FAILED|ERROR)" | grep -v -E "test_polars.py::TestExtraNDArray::test_fails_with_wrong_types|test_polars.py::TestH1::test_with_series|test_polars.py::TestExtraNDArray::test_same_result_as_with_arrays")
 if [ -z "$bad" ]; then t=$(echo "$t" | sed -E 's/[0-9]+ failed, //'); t="$t (only known-flaky polars failures, if any)"; else echo "$bad"; fi
